@@ -182,6 +182,9 @@ def catalogue(tier, rng, families=None, max_n=64):
         for r in range(0, m):
             if 2 ** m > max_n:
                 continue
+            from math import comb
+            if sum(comb(m, i) for i in range(r + 1)) > 16:
+                continue        # the encoder's own syndrome / inverse is a 2^k brute force: infeasible above k = 16
             add(Entry("RM(%d,%d)" % (r, m), "rm", (r, m), (lambda r=r, m=m: E.ReedMullerCodeEncoder(r, m)), dexact=True,
                       component="ReedMullerCodeEncoder", linear_syndrome=False))
     # --- cyclic: named codes and every divisor of X^n+1
